@@ -14,6 +14,8 @@ import (
 	"fmt"
 	"strconv"
 
+	gojson "github.com/goccy/go-json"
+
 	log "github.com/sirupsen/logrus"
 
 	"git.metabarcoding.org/obitools/obitools4/obitools4/pkg/obiformats"
@@ -45,6 +47,7 @@ type c02case struct {
 	Mode   string   `json:"mode"`
 	Fmt    string   `json:"fmt"`
 	Shift  int      `json:"shift"`
+	Shift2 int      `json:"shift2"` // quality offset of the second write (0: same as shift)
 	Parser string   `json:"parser"`
 	Recs   []c02rec `json:"recs"`
 	Header string   `json:"header"` // base64 (scan)
@@ -59,6 +62,7 @@ type c02orec struct {
 	Start  int    `json:"start"`   // interval found by the scanner (-2: scanner not called)
 	Stop   int    `json:"stop"`
 	Ann    string `json:"ann"`     // annotations after the header parser, encoding/json (sorted keys)
+	Enc    string `json:"enc"`     // base64: FormatFastSeqJsonHeader of the record after the header parser
 }
 
 type c02obs struct {
@@ -66,6 +70,7 @@ type c02obs struct {
 	Msg  string    `json:"msg,omitempty"`
 	W1   string    `json:"w1,omitempty"` // base64 first write
 	W2   string    `json:"w2,omitempty"` // base64 second write
+	Qual2 [][]int  `json:"qual2,omitempty"` // qualities read back from the second write with its own offset
 	Recs []c02orec `json:"recs,omitempty"`
 	// scan
 	Start int    `json:"start"`
@@ -75,7 +80,57 @@ type c02obs struct {
 	Ann2  string `json:"ann2,omitempty"`  // annotations after format + re-parse
 	Rest2 string `json:"rest2,omitempty"` // base64
 	// enc
-	Enc string `json:"enc,omitempty"` // base64
+	Enc  string `json:"enc,omitempty"`  // base64
+	Enc2 string `json:"enc2,omitempty"` // base64: go-json Unmarshal(enc) then JsonMarshal again ("!": decode error)
+	// scan: the whole header parsers on a record whose definition is the header (round 2)
+	HKind string `json:"hkind,omitempty"` // ParseFastSeqJsonHeader: ok | fatal
+	HEnc  string `json:"henc,omitempty"`  // base64 formatted header afterwards
+	HEnc2 string `json:"henc2,omitempty"` // base64 formatted header after re-parsing HEnc ("!fatal")
+	GKind string `json:"gkind,omitempty"` // ParseGuessedFastSeqHeader
+	GEnc  string `json:"genc,omitempty"`
+}
+
+// c02header runs one header parser on a fresh record whose definition is h; returns kind and the formatted header.
+func c02header(h string, guessed bool) (kind string, enc string) {
+	kind = "fatal"
+	defer func() {
+		if r := recover(); r != nil {
+			if _, ok := r.(c02fatal); !ok {
+				kind = "panic"
+			}
+		}
+	}()
+	s := obiseq.NewBioSequence("x", []byte("a"), h)
+	if guessed {
+		obiformats.ParseGuessedFastSeqHeader(s)
+	} else {
+		obiformats.ParseFastSeqJsonHeader(s)
+	}
+	enc = obiformats.FormatFastSeqJsonHeader(s)
+	enc = string(append([]byte(nil), enc...))
+	kind = "ok"
+	return
+}
+
+// c02redecode: what go-json reads back from a marshalled value, marshalled again.
+func c02redecode(b []byte) string {
+	var err error
+	var out []byte
+	if len(b) > 0 && b[0] == '{' {
+		a := obiseq.Annotation{}
+		if err = gojson.Unmarshal(b, &a); err == nil {
+			out, err = obiutils.JsonMarshal(a)
+		}
+	} else {
+		var x interface{}
+		if err = gojson.Unmarshal(b, &x); err == nil {
+			out, err = obiutils.JsonMarshal(x)
+		}
+	}
+	if err != nil {
+		return b64([]byte("!" + err.Error()))
+	}
+	return b64(out)
 }
 
 func b64(b []byte) string { return base64.StdEncoding.EncodeToString(b) }
@@ -180,6 +235,20 @@ func c02run(c c02case) (o c02obs) {
 	case "scan":
 		ann := obiseq.Annotation{}
 		h := string(unb64(c.Header))
+		var e string
+		o.HKind, e = c02header(h, false)
+		o.HEnc = b64([]byte(e))
+		if o.HKind == "ok" {
+			k2, e2 := c02header(e, false)
+			if k2 == "ok" {
+				o.HEnc2 = b64([]byte(e2))
+			} else {
+				o.HEnc2 = b64([]byte("!" + k2))
+			}
+		}
+		o.GKind, e = c02header(h, true)
+		o.GEnc = b64([]byte(e))
+		lastStart, lastStop = -2, -2
 		rest := obiformats.VerifParseJsonHeader(h, ann)
 		o.Kind, o.Start, o.Stop, o.Rest, o.Ann = "ok", lastStart, lastStop, b64([]byte(rest)), c02canon(ann)
 		if len(ann) > 0 {
@@ -204,6 +273,7 @@ func c02run(c c02case) (o c02obs) {
 			return
 		}
 		o.Kind, o.Enc = "ok", b64(b)
+		o.Enc2 = c02redecode(b)
 		return
 	}
 	obioptions.SetOutputQualityShift(c.Shift)
@@ -252,10 +322,29 @@ func c02run(c c02case) (o c02obs) {
 			}
 		}
 		r.Ann = c02canon(s.Annotations())
+		r.Enc = b64([]byte(obiformats.FormatFastSeqJsonHeader(s)))
 		o.Recs = append(o.Recs, r)
 	}
+	if c.Shift2 != 0 {
+		obioptions.SetOutputQualityShift(c.Shift2)
+	}
 	w2 := c02format(c.Fmt, parsed)
-	o.Kind, o.W2 = "ok", b64(w2)
+	o.W2 = b64(w2)
+	if c.Fmt == "fastq" && c.Shift2 != 0 {
+		again, err := obiformats.FastqChunkParser(byte(c.Shift2), true)("c02", bytes.NewReader(w2))
+		if err != nil {
+			o.Kind, o.Msg = "fatal", "second read: "+err.Error()
+			return
+		}
+		for _, s := range again {
+			q := []int{}
+			for _, x := range s.Qualities() {
+				q = append(q, int(x))
+			}
+			o.Qual2 = append(o.Qual2, q)
+		}
+	}
+	o.Kind = "ok"
 	return
 }
 
